@@ -32,7 +32,7 @@ func init() {
 			"Some placeholder configurations are provisioned a second time, while the first handler is still alive, after the variable behind the password placeholder was rotated (a reload): the sessions then run against the new handler and the model with the new password. " +
 			"The reference classifies the script as must-refuse / must-permit (enabled CONNECT of an authenticated client to a live target) / not prescribed. " +
 			"Monitors: reply oracle, accept log of all harness targets, strace bracket of the session (no connect() to a target port, no bind()/listen() at all when must-refuse). " +
-			"non-trivial = the server sent at least one byte; distinct = hash(command-set class, credential class, greeting class, auth class, command class, address/target class, mutation class)",
+			"non-trivial = the server sent at least one byte; distinct = hash(command-set class, credential class, greeting class, auth class, command class, address/target class, mutation class). must-refuse sessions of single-session configurations may have the handler's configuration unloaded (context cancelled, clean-up run) between the method reply and the rest of the script: still no success, no outbound activity (what a handler unloaded under the session refuses is not judged)",
 		Assumptions: []string{
 			"the handler is driven directly through Handle() on a scripted in-memory connection (vnet); only TCP control connections are scripted, no UDP datagrams are sent to ASSOCIATE relays",
 			"destinations are harness-owned 127.0.0.1/[::1] listeners, one closed port below the ephemeral range, and the name \"localhost\"",
